@@ -145,6 +145,15 @@ def run(pid, tier, seed):
                         jobs.append((s, None, tzs_, ("ok", ("now", off), None), "now"))
                     else:
                         jobs.append((None, s, tzs_, ("ok", None, ("now", off)), "now"))
+            # one bound relative to the other, the other relative to now
+            ats = [(s_, o_) for s_, a_, o_ in relf if a_]
+            nows = [(s_, o_) for s_, a_, o_ in relf if not a_]
+            for _ in range(12 if tier == "quick" else 120):
+                (sa, oa), (sn, on) = rng.choice(ats), rng.choice(nows)
+                if oa < 0:
+                    jobs.append((sa, sn, tzs_, ("ok", ("now", on + oa), ("now", on)), "at-of-now"))
+                else:
+                    jobs.append((sn, sa, tzs_, ("ok", ("now", on), ("now", on + oa)), "at-of-now"))
             # rejections
             for bad in ["garbage", "2024-13-01", "2024-01-32", "2024-01-01T25:00:00", "2024-01-01T00:00:00 IST", "20240101T000000ACT", "+",
                         "@", "+1x", "1d", "2024-01-01T00:00:00+99", "", "2024-01-01 00:00", "@+1d@", "+-1d",
